@@ -54,11 +54,26 @@ def sid_to_dict(sid: str, _type: Optional[str] = None) -> Tuple[str, dict] | Tup
         template = _type
     else:
         template, data = r.resolve_first(sid)
+        if data and not _is_whole_match(r, sid, template, data):
+            # first match was not a whole match, looking for the first template that is.
+            for template, data in r.resolve_all(sid).items():
+                if _is_whole_match(r, sid, template, data):
+                    break
+            else:
+                return None, None
 
-    if not data:
+    if not data or not _is_whole_match(r, sid, template, data):
         return None, None
 
     return template, data
+
+
+def _is_whole_match(r: Resolver, sid: str, template: str, data: dict) -> bool:
+    """
+    The resolver anchors its regex with "$", which also matches before a trailing newline.
+    A template only matches the sid if the resolved data formats back to the whole sid.
+    """
+    return r.get_format_for(template).format(**data) == sid
 
 
 @cache
